@@ -622,6 +622,9 @@ fn static_pass(acc: &mut Acc, opts: &[SerOpts]) {
 /// FoldStr must not wrap.
 fn control_pass(p: &C20, acc: &mut Acc, opts: &[SerOpts]) {
     let mut texts: Vec<String> = ["a\rb", "a\0b", "\ra", "a\r", "a\u{85}b", "a\x1bb", "a\u{2028}b", "a\x7fb", "\u{feff}a", "a\tb", "\ta", "a\r\nb", "a\u{9b}b"].iter().map(|s| s.to_string()).collect();
+    // strings of line breaks only (the two open findings of this property: reproduced in both tiers)
+    texts.push("\n".to_string());
+    texts.push("\n\n".to_string());
     texts.push(format!("\t{}", "word ".repeat(30)));
     texts.push(format!(" {}", "word ".repeat(30)));
     texts.push(format!("{}\n", "word ".repeat(30)));
